@@ -256,6 +256,7 @@ static int m_unlock(void *m) {
   T &t = *g_threads[(size_t)tl_id];
   auto it = g_owner.find(m);
   if (it != g_owner.end() && it->second == tl_id) { g_owner.erase(it); t.held--; }
+  else g_stats.unlock_not_owner++;
   if (g_rng.chance(g_preempt)) switch_locked(tl_id);
   unlock();
   return 0;
